@@ -34,6 +34,11 @@ BODIES = [
     coll("any", ["v", "l"], "value", "", "v", match(["v"], "==", "2")),
     coll("all", ["nums"], "default", "v", "", match(["v"], "!=", "9")),
     coll("any", ["v", "tags"], "default", "v", "", coll("any", ["recs"], "default", "v", "", match(["v", "id"], "==", "3"))),
+    # bodies for shells whose binding is named like the top-level field they iterate (recs, grid, byname): the name means the
+    # element inside the braces, also as the root of an inner quantifier's selector
+    coll("any", ["recs", "tags"], "default", "y", "", match(["y"], "==", "b")), match(["recs", "id"], "==", "2"),
+    coll("any", ["grid"], "default", "w", "", match(["w"], "==", "2")), coll("all", ["recs", "attr"], "both", "k2", "v2", match(["v2"], "!=", "zz")),
+    coll("any", ["byname", "l"], "value", "", "byname", match(["byname"], "==", "2")),
 ]
 
 
@@ -72,6 +77,13 @@ def main():
                 for mode, n1, n2 in (("default", "v", ""), ("index", "k", ""), ("value", "", "v"), ("both", "k", "v")):
                     colls.append({"op": op, "sel": {"ty": "bexpr", "path": list(key)}, "mode": mode, "n1": n1, "n2": n2})
         colls.append({"op": "any", "sel": {"ty": "bexpr", "path": ["nums"]}, "mode": "both", "n1": "v", "n2": "v"})
+        if wn == "records":
+            for key in ("recs", "grid", "byname"):
+                for op in ("any", "all"):
+                    colls += [{"op": op, "sel": {"ty": "bexpr", "path": [key]}, "mode": "default", "n1": key, "n2": ""},
+                              {"op": op, "sel": {"ty": "bexpr", "path": [key]}, "mode": "value", "n1": "", "n2": key},
+                              {"op": op, "sel": {"ty": "bexpr", "path": [key]}, "mode": "both", "n1": "k", "n2": key},
+                              {"op": op, "sel": {"ty": "bexpr", "path": [key]}, "mode": "both", "n1": key, "n2": "v"}]
         atoms = list(BODIES)
         world = vlib.make_world([wn], data["docs"], data["cfgs"], cfgsel, atoms, list(range(len(atoms))), colls, 2, want_parts=True)
         tag = "c06-" + wn
